@@ -32,7 +32,7 @@ RULE = ('histories of 2-6 tasks from {create(persist), launch(persist, nowait), 
         '>=1 task was honoured and the model predicted a reply')
 RULE += ('; also: task types resembling launcher attributes, processes failing after recording a result, unpicklable processes, a second launcher on the same persister, tags never saved, a launcher built outside the serving loop')
 ASSUMPTIONS = ['the RabbitMQ transport is replaced by the in-process communicator of pv/comm.py', 'errors may arrive wrapped in RemoteException']
-REQUIRED = ['launcher_loader_of_its_own_class', 'paused_at_start_played', 'unknown_pid_kinds/str', 'unknown_pid_kinds/int', 'unknown_pid_kinds/UUID', 'unsaveable_persist_tasks', 'second_launcher_continues', 'late_failures', 'tasks/create', 'tasks/launch', 'tasks/continue', 'tasks/bogus', 'rejected', 'persisted_checks', 'nowait_replies', 'wait_replies', 'error_replies',
+REQUIRED = ['redelivered_after_rejection', 'launcher_loader_of_its_own_class', 'paused_at_start_played', 'unknown_pid_kinds/str', 'unknown_pid_kinds/int', 'unknown_pid_kinds/UUID', 'unsaveable_persist_tasks', 'second_launcher_continues', 'late_failures', 'tasks/create', 'tasks/launch', 'tasks/continue', 'tasks/bogus', 'rejected', 'persisted_checks', 'nowait_replies', 'wait_replies', 'error_replies',
             'route/direct', 'route/thread', 'route/async', 'persister/none', 'persister/mem', 'persister/pickle', 'persister/failing', 'loader/custom',
             'loader/custom_ctx', 'continued_from_tag', 'traces_checked', 'killed_replies', 'launcher_built_elsewhere', 'absent_tag_with_untagged_checkpoint', 'counted_persister']
 BOUNDS = {'quick': '400 histories', 'thorough': '6000 histories'}
@@ -47,6 +47,8 @@ PROGS = {
     'unpicklable': {'steps': [S(['cont', [1], {}], yields=1, fx=[(0, ['out', 'o', 1])]), S(['value', 5], sync=True)], 'unpicklable': True},
     # pauses itself when it is initialised (it waits for a go-ahead): launched without waiting, its id is the reply all the same
     'pausedstart': {'steps': [S(['cont', [1], {}], yields=1, fx=[(0, ['out', 'o', 1])]), S(['value', 5], sync=True)], 'paused_start': True},
+    # its steps hand callbacks to the process (``call_soon``): a continued process needs its loop for that as much as a launched one
+    'schedules': {'steps': [S(['cont', [1], {}], yields=1, fx=[(0, ['out', 'o', 1]), (1, ['soon', 'ok', 'c0'])]), S(['value', 5], yields=1, fx=[(0, ['soon', 'ok', 'c1'])])]},
     'latefail': {'steps': [S(['cont', [2], {}], yields=1, fx=[(0, ['out', 'o', 3])]), S(['value', 7], sync=True)], 'late_fail': True},
 }
 
@@ -345,6 +347,24 @@ def run_case(case):
                                 viol.append(V('refused-but-ran', 'refused-but-ran:%s:%s' % (kind, case['persister']),
                                               '%s: the task failed (%s) but the process was executed anyway (state %s)' % (ctx, rep, p.state.value)))
                         made.append({'pid': None, 'prog': prog, 'persisted': False})
+                        if case['persister'] == 'none' and kind == 'create' and not PROGS[prog].get('unpicklable'):
+                            # what a communicator does with a rejected task: the very same message goes to the next subscriber -- here a
+                            # launcher that can persist.  It gets the task as it was sent, and honours all of it.
+                            msg = copy.deepcopy(task)
+                            t1 = loop.create_task(launcher(None, msg))
+                            drv.pump()
+                            mem_b = plumpy.InMemoryPersister(loader)
+                            launcher_b = pc.ProcessLauncher(loop=loop, persister=mem_b, loader=loader)
+                            t2 = loop.create_task(launcher_b(None, msg))
+                            drv.pump()
+                            rep_b = _reply(t2)
+                            obs['redelivered_after_rejection'] = obs.get('redelivered_after_rejection', 0) + 1
+                            for p in [p for p in programs.INSTANCES if id(p) not in before and p not in new]:
+                                idle.add(p)
+                            if _reply(t1) == ['rejected'] and (rep_b[0] != 'result' or len(mem_b.get_checkpoints()) != 1):
+                                viol.append(V('redelivered-task-differs', 'redelivered-task-differs:%s' % kind, '%s: the task rejected by a launcher without a persister was handed '
+                                              'on to one that has one: answer %s, checkpoints written %d (message now %r, sent %r)' % (
+                                                  ctx, rep_b, len(mem_b.get_checkpoints()), msg, task)))
                         continue
                     if len(new) != 1:
                         viol.append(V('instance-count', 'instance-count:%s' % kind, '%s: %d process instances were constructed' % (ctx, len(new))))
